@@ -7,7 +7,14 @@ pub mod common;
 pub mod framework;
 pub mod diff;
 pub mod c01;
+pub mod c05;
+pub mod c07;
+pub mod c08;
+pub mod c09;
 pub mod c12;
+pub mod c16;
+pub mod c17;
+pub mod c18;
 
 pub fn run(cfg: &Cfg, rep: &mut Report) -> Result<(), String> {
     match cfg.check.as_str() {
@@ -17,6 +24,13 @@ pub fn run(cfg: &Cfg, rep: &mut Report) -> Result<(), String> {
         "c04" => diff::run_c04(cfg, rep),
         "c13" => diff::run_c13(cfg, rep),
         "c12" => c12::run(cfg, rep),
+        "c09" => c09::run(cfg, rep),
+        "c08" => c08::run(cfg, rep),
+        "c07" => c07::run(cfg, rep),
+        "c05" => c05::run(cfg, rep),
+        "c16" => c16::run(cfg, rep),
+        "c17" => c17::run(cfg, rep),
+        "c18" => c18::run(cfg, rep),
         other => return Err(format!("unknown check {}", other)),
     }
     Ok(())
